@@ -194,21 +194,7 @@ def check(prog, rep, tier):
                    found='%d identical arms' % len(a1))
 
     # ---------------------------------------------------------------- R17.c
-    I2S = prog.fold(cm.assigns['WELL_KNOW_COMMUNITY_INT_2_STR'], cm)
-    S2I = prog.fold(cm.assigns['WELL_KNOW_COMMUNITY_STR_2_INT'], cm)
-    cf = prog.func('yabgp.message.attribute.community.Community.construct')
-    norm = 'upper' if '.upper()' in src_of(cf.node) else ('lower' if '.lower()' in src_of(cf.node) else None)
-    rep.floor('R17.c', 'well-known names', len(I2S), 11)
-    for val, name in sorted(I2S.items()):
-        key = 'well-known:%s' % name
-        n2 = getattr(name, norm)() if norm else name
-        if S2I.get(n2) == val:
-            rep.ok('R17.c', key, file=cm.relpath, line=cm.assign_lines.get('WELL_KNOW_COMMUNITY_INT_2_STR'))
-        else:
-            rep.bad('R17.c', key, file=cm.relpath, line=cm.assign_lines.get('WELL_KNOW_COMMUNITY_STR_2_INT'),
-                    func=cf.qualname,
-                    found='Community.parse renders %r; Community.construct looks up %r, which maps to %s' % (
-                        name, n2, S2I.get(n2)), expected='0x%08x' % val, key=key)
+    common.well_known_names(prog, rep, 'R17.c')
 
     # ---------------------------------------------------------------- R17.d
     sites = [(f, n) for f, n in ord_int_sites(prog, 'yabgp.message.attribute')
